@@ -91,10 +91,10 @@ fn main() {
         ("gen", "C04") => { c05::generate("C04", seed, &tier, &mut out); c01::generate("C04", seed, &tier, &mut out); c04::generate(seed, &tier, &mut out) }
         ("gen", "C07") => c01::generate("C07", seed, &tier, &mut out),
         ("gen", "C18") => c01::generate("C18", seed, &tier, &mut out),
-        ("gen", "C02") => { c02::generate(seed, &tier, &mut out); c01::generate("C02", seed, &tier, &mut out) }
+        ("gen", "C02") => { c02::generate(seed, &tier, &mut out); c01::generate("C02", seed, &tier, &mut out); c08::generate("C02", seed, &tier, &mut out) }
         ("gen", "C03") => c03::generate(seed, &tier, &mut out),
         ("gen", "C14") => c14::generate(seed, &tier, &mut out),
-        ("gen", "C08") => c08::generate(seed, &tier, &mut out),
+        ("gen", "C08") => c08::generate("C08", seed, &tier, &mut out),
         ("gen", "C11") => { c11::generate(seed, &tier, &mut out); c04::generate_exits("C11", seed, &tier, &mut out) }
         ("gen", "C17") => c17::generate(seed, &tier, &mut out),
         ("gen", "C19") => c19::generate(seed, &tier, &mut out),
